@@ -22,35 +22,56 @@ def render (fw : Bool) (stopped : Bool) (pn : Nat) (o : Obs) : Int × Int :=
   else if pn == 6 then (o.lifetime / second * second, -1)                         -- API: whole seconds, no misconfiguration
   else (o.lifetime, if o.misconfig then 1 else 0)
 
-/-- replay the history in the model, tracking which advertisers were stopped by `final` -/
-def modelObs (cfg : Nat → Dur) : (Nat → Bool) → (Nat → Bool) → List (Op × Nat) → List (Nat × Nat × Int × Int)
-  | _, _, [] => []
-  | fw, stopped, (.setFw i b, _) :: rest => modelObs cfg (setAt fw i b) stopped rest
-  | fw, stopped, (.gen i p, pn) :: rest =>
-    let o := generate cfg (fw i) i p
-    let (a, b) := render (fw i) (stopped i) pn o
-    let stopped' := if pn == 3 then setAt stopped i true else stopped
-    (i, pn, a, b) :: modelObs cfg fw stopped' rest
+/-- a history step as the harness encodes it: flip, one-shot read failure, or generation -/
+inductive HOp where
+  | setFw (i : Nat) (b : Bool)
+  | failNext (i : Nat)
+  | gen (i : Nat) (pn : Nat)
+
+/-- replay the history in the model.  `stopped`: advertisers ended by `final` or because an RA
+    could not be built; `failing`: the next forwarding read of the interface fails — then no RA
+    may be produced from a remembered value: the generation yields nothing (−3), and on a
+    transmitting path the advertiser ends -/
+def modelObs (cfg : Nat → Dur) : (Nat → Bool) → (Nat → Bool) → (Nat → Bool) → List HOp → List (Nat × Nat × Int × Int)
+  | _, _, _, [] => []
+  | fw, stopped, failing, .setFw i b :: rest => modelObs cfg (setAt fw i b) stopped failing rest
+  | fw, stopped, failing, .failNext i :: rest => modelObs cfg fw stopped (setAt failing i true) rest
+  | fw, stopped, failing, .gen i pn :: rest =>
+    let isView := pn == 5 || pn == 6
+    if stopped i && !isView then (i, pn, -2, -2) :: modelObs cfg fw stopped failing rest
+    else if isView && (failing 0 || failing 1) then
+      -- a scrape / an API request reads the forwarding state of every interface in configuration
+      -- order and gives up at the first read that fails (consuming that failure only)
+      let j := if failing 0 then 0 else 1
+      (i, pn, -3, -3) :: modelObs cfg fw stopped (setAt failing j false) rest
+    else if failing i then
+      (i, pn, -3, -3) :: modelObs cfg fw (setAt stopped i true) (setAt failing i false) rest
+    else
+      let o := generate cfg (fw i) i (pathOf pn)
+      let (a, b) := render (fw i) false pn o
+      let stopped' := if pn == 3 then setAt stopped i true else stopped
+      (i, pn, a, b) :: modelObs cfg fw stopped' failing rest
 
 /-- `pth lt0 lt1 n op* | k (iface path lifetime misconfig)*` -/
 def pth (c impl : List String) : Option Verdict := do
-  let (lt0, lt1, rawOps) ← P.run (do
+  let (lt0, lt1, ops) ← P.run (do
     let a ← P.int; let b ← P.int
     let ops ← P.list (do
       let t ← P.tok
-      if t == "F" then do let i ← P.nat; let b ← P.bool; pure (Op.setFw i b, 0)
-      else if t == "G" then do let i ← P.nat; let p ← P.nat; pure (Op.gen i (pathOf p), p)
+      if t == "F" then do let i ← P.nat; let b ← P.bool; pure (HOp.setFw i b)
+      else if t == "X" then do let i ← P.nat; pure (HOp.failNext i)
+      else if t == "G" then do let i ← P.nat; let p ← P.nat; pure (HOp.gen i p)
       else failure)
     pure (a, b, ops)) c
   let observed ← P.run (P.list (do
     let i ← P.nat; let p ← P.nat; let lt ← P.int; let m ← P.int; pure (i, p, lt, m))) impl
   let cfg : Nat → Dur := fun i => if i == 0 then lt0 else lt1
-  let want := modelObs cfg (fun _ => true) (fun _ => false) rawOps
+  let want := modelObs cfg (fun _ => true) (fun _ => false) (fun _ => false) ops
   let toks := fun (l : List (Nat × Nat × Int × Int)) =>
     s!"{l.length}" ++ String.join (l.map fun (i, p, a, b) => s!" {i} {p} {a} {b}")
   let ok := observed == want
-  let flips := rawOps.any fun (o, _) => match o with | .setFw _ _ => true | _ => false
+  let flips := ops.any fun o => match o with | .setFw _ _ => true | _ => false
   pure { model := toks want, oracle := ok, nontrivial := flips && want.length ≥ 2,
-         note := if ok then "" else "an RA generated on some path does not reflect the forwarding state at that moment (lifetime / misconfiguration)" }
+         note := if ok then "" else "an RA generated on some path does not reflect the forwarding state at that moment (lifetime / misconfiguration), or was built although the state could not be read" }
 
 end Driver.C04
